@@ -56,6 +56,12 @@ func main() {
 			os.Exit(2)
 		}
 		os.Exit(f(run))
+	case "replay":
+		if len(os.Args) < 4 {
+			fmt.Println("usage: verif replay <Cxx> <path>")
+			os.Exit(2)
+		}
+		os.Exit(checks.Replay(os.Args[2], os.Args[3]))
 	case "selftest":
 		run, err := checks.NewRun("SELFTEST", "quick")
 		if err != nil {
